@@ -357,3 +357,32 @@ def witness_K12_contains_partial_window():
     s = schema.list([..., schema.dict({"a": schema.int, "b": schema.int}), ...])
     v = [{"a": 1}, {"a": 1, "b": 2}]
     return (not validate(s, v).has_errors()) and validate(substitute(s, v), v).has_errors()
+
+
+def class_K13_open_dict_alternative(v):
+    """S % v rejects v: S has an `any` one of whose alternatives is a dict with declared keys AND `...: ...`
+    (substitution refuses undeclared keys there, drops that alternative and pins another that only matched partially)"""
+    from d42.declaration.types import AnySchema, DictSchema
+    if "rejects v although v conforms" not in v.get("what", ""):
+        return False
+    s = v.get("py_schema")
+    if s is None:
+        return False
+    for x in _walk(s):
+        if isinstance(x, AnySchema):
+            ts = x.props.get("types")
+            if ts is not Nil:
+                for t in ts:
+                    for y in _walk(t):
+                        if isinstance(y, DictSchema):
+                            keys = y.props.get("keys")
+                            if keys is not Nil and len(keys) > 1 and any(k is Ellipsis for k in keys):
+                                return True
+    return False
+
+
+def witness_K13_open_dict_alternative():
+    from d42 import schema, substitute, validate
+    s = schema.any(schema.dict({"a": schema.int, ...: ...}), schema.dict({"a": schema.int, "b": schema.int, "c": schema.int}))
+    v = {"a": 1, "c": 2}
+    return (not validate(s, v).has_errors()) and validate(substitute(s, v), v).has_errors()
